@@ -7,7 +7,7 @@ from typing_extensions import Unpack
 from classy_blocks.base.element import ElementBase
 from classy_blocks.base.exceptions import EdgeCreationError
 from classy_blocks.base.transforms import Mirror
-from classy_blocks.construct.edges import Arc, EdgeData, Line, Project, Spline
+from classy_blocks.construct.edges import Arc, EdgeData, Line, OnCurve, Project, Spline
 from classy_blocks.construct.flat.face import Face
 from classy_blocks.construct.point import Point
 from classy_blocks.grading.chop import Chop
@@ -203,8 +203,11 @@ class Operation(ElementBase):
     def parts(self):
         # an object that is used in several places of this operation (for instance the same
         # edge data on the bottom and the top face, or on several side edges) must only be transformed once
+        # (of an edge that is snapped to a curve, it's the curve that is transformed)
+        side_parts = [edge.curve if isinstance(edge, OnCurve) else edge for edge in self.side_edges]
+
         parts = []
-        for part in [*self.bottom_face.parts, *self.top_face.parts, *self.side_edges]:
+        for part in [*self.bottom_face.parts, *self.top_face.parts, *side_parts]:
             if not any(part is other for other in parts):
                 parts.append(part)
 
